@@ -220,8 +220,13 @@ Definition is_merge_key (k : keynode) : bool :=
 
 Inductive pres := POk (l : list pending_entry) (x : src) | PErr (e : err) | PFuel.
 
-Definition ev_scalar_nullish (e : ev) : bool :=
+(* the value of a merge key: null-like by text and style alone *)
+Definition ev_merge_nullish (e : ev) : bool :=
   match e with EScalar v _ _ st _ _ => scalar_is_nullish v st | _ => false end.
+
+(* a "null document" (skipped by from_multiple and the iterator): a null-like root scalar that is not tagged !!str *)
+Definition ev_scalar_nullish (e : ev) : bool :=
+  match e with EScalar v tag _ st _ _ => negb (tag =? TAG_String) && scalar_is_nullish v st | _ => false end.
 
 (* fn pending_entries_from_events / pending_entries_from_live_events / collect_entries_from_map,
    mutually recursive through fuel.  [batches] are concatenated last-to-first. *)
@@ -234,7 +239,7 @@ Fixpoint pending_from_events (fuel : nat) (events : list ev) (location reference
     | [] => PErr (Err E_Eof location)
     | e :: _ =>
       match e with
-      | EScalar _ _ _ _ _ l => if ev_scalar_nullish e then POk [] x else PErr (Err E_MergeValueNotMapOrSeqOfMaps l)
+      | EScalar _ _ _ _ _ l => if ev_merge_nullish e then POk [] x else PErr (Err E_MergeValueNotMapOrSeqOfMaps l)
       | EMapStart _ _ => collect_entries f x reference
       | ESeqStart _ _ _ _ =>
         match src_next x with
@@ -281,7 +286,7 @@ with pending_from_live (fuel : nat) (x : src) (merge_ref : loc) : pres :=
     | NSome e x' =>
       match e with
       | EScalar _ _ _ _ _ l =>
-        if ev_scalar_nullish e then
+        if ev_merge_nullish e then
           match src_next x' with
           | NErr e' => PErr e'
           | NSome _ x'' | NNone x'' => POk [] x''
@@ -858,7 +863,7 @@ Fixpoint deser (fuel : nat) (c : dcfg) (kemn : bool) (t : ty) (x : src) {struct 
       | NErr e => DErr e
       | NNone x' => DOk VNone x'
       | NSome (EScalar v tag _ st _ _) x' =>
-        if (tag =? TAG_Null) || scalar_is_nullish_for_option v st then
+        if (tag =? TAG_Null) || (negb (tag =? TAG_String) && scalar_is_nullish_for_option v st) then
           match src_next x' with
           | NErr e => DErr e
           | NSome _ x'' | NNone x'' => DOk VNone x''
